@@ -79,6 +79,51 @@ Theorem C02_cstr_format_total : forall bytes,
 Proof. exact BoundsProofs.cstr_format_total. Qed.
 Print Assumptions C02_cstr_format_total.
 
+(* ---- the directory parsers and conversions: restated here from the files of their own properties ---- *)
+From PV.Model Require Convert Exports Scanner VersionInfo Iters.
+From PV.Proofs Require ConvertProofs ExportsProofs ScannerProofs VersionInfoProofs ItersProofs.
+
+(* file <-> view conversion on any buffer (after F5) *)
+Theorem C02_to_view_total : forall f m, mem_ok m -> no_fault (Convert.pe_to_view f m).
+Proof. exact ConvertProofs.pe_to_view_no_fault. Qed.
+Print Assumptions C02_to_view_total.
+Theorem C02_to_file_total : forall f m, mem_ok m -> no_fault (Convert.pe_to_file f m).
+Proof. exact ConvertProofs.pe_to_file_no_fault. Qed.
+Print Assumptions C02_to_file_total.
+
+(* export directory: table extraction and get_proc_address by ordinal, name and import on any view (after F6, F7) *)
+Theorem C02_exports_by_total : forall v dd, no_fault (Exports.view_by v dd).
+Proof. exact ExportsProofs.view_by_no_fault. Qed.
+Print Assumptions C02_exports_by_total.
+Theorem C02_get_proc_address_total : forall v dd, (forall i, v_get v i < 256) ->
+  (forall o, no_fault (Exports.get_export_ordinal v dd o)) /\ (forall n, no_fault (Exports.get_export_name v dd n)) /\
+  (forall i, no_fault (Exports.get_export_import v dd i)) /\
+  (forall r, no_fault r -> no_fault (Exports.get_proc_address v r)).
+Proof. exact ExportsProofs.get_export_no_fault. Qed.
+Print Assumptions C02_get_proc_address_total.
+
+(* scanner: Matches::next returns a verdict for every pattern, save array and range (after F9) *)
+Theorem C02_scanner_next_total : forall v pat, ViewsProofs.view_ok v -> v_len v < W32 ->
+  forall st save, Scanner.m_end st < W32 -> Scanner.m_hits st <= Scanner.m_start st ->
+  exists ok st' save', Scanner.next v pat st save = Ok (ok, st', save') /\
+    Scanner.m_end st' = Scanner.m_end st /\ Scanner.m_hits st' <= Scanner.m_start st' /\ Scanner.m_start st <= Scanner.m_start st' /\
+    Scanner.m_start st' <= N.max (Scanner.m_start st) (Scanner.m_end st) /\
+    (ok = true -> exists c s_in, Scanner.m_start st <= c /\ c < Scanner.m_end st /\ c < Scanner.m_start st' /\
+                                 view_exec v pat c s_in = Ok (true, save')).
+Proof. exact ScannerProofs.next_total_sound. Qed.
+Print Assumptions C02_scanner_next_total.
+
+(* version information: try_from + visit with ANY visitor on any bytes at any address (after F12) *)
+Theorem C02_version_info_total : forall St A (V : VersionInfo.visitor St) (init : St) (proj : St -> A) base bytes,
+  VersionInfoProofs.bytes_len_ok bytes -> no_fault (VersionInfo.api V false init proj base bytes).
+Proof. exact @VersionInfoProofs.api_no_fault. Qed.
+Print Assumptions C02_version_info_total.
+
+(* RichIter under any call history (after F23) *)
+Theorem C02_rich_iter_total : forall hist pool, Forall ItersProofs.rich_inv pool -> no_fault (Iters.m_run Iters.rich_impl pool hist).
+Proof. exact ItersProofs.rich_no_fault. Qed.
+Print Assumptions C02_rich_iter_total.
+
 (* panics of the code as it stood, repaired in /repo (each also listed under its own property) *)
 Theorem C02_F25_rva_to_va_orig_refuted :
   rva_to_va_orig {| v_file := true; v_addr := 0; v_len := 0; v_get := fun _ => 0; v_w := W32;
